@@ -70,7 +70,9 @@ const std::vector<std::string>& name_opts() {
                                        "Fixed/UTC+05:30:00", "Fixed/UTC+25:00:00", "fixed/utc+01:00:00", "ADir", "NoPerm", "Trunc", "Leap", "BadMagic", "Empty", "V1", "Real",
                                        "X/", "./X", "localtime", "Dir", "Fixed/UTC-00:00:00", "Fixed/UTC+24:00:00", "file:UTC", "/etc/localtime", "file:No/Such", "Dir//Y", "MarkF", "TruncNL", "TruncFooter",
                                        "Fixed/UTC+24:00:01", "Fixed/UTC+5:30:00", "UTC00", "utc", "Fixed/UTC+00:00:00", "Fixed/UTC-24:00:00", "Fixed/UTC+05:30", "file:Fixed/UTC+05:30:00",
-                                       "Dir/../X", "X/.", "Dir/./Y", "./Dir//Y", " X", "X ", "\xc3\x9cn\xc3\xaf/X", "EST5EDT", "<+03>-3", "Dir/../../X", "X/../X", "LONG", "Dir/Y/", "x", "X\tX", "NUL1", "NUL2", "NUL3", "NUL4"};
+                                       "Dir/../X", "X/.", "Dir/./Y", "./Dir//Y", " X", "X ", "\xc3\x9cn\xc3\xaf/X", "EST5EDT", "<+03>-3", "Dir/../../X", "X/../X", "LONG", "Dir/Y/", "x", "X\tX", "NUL1", "NUL2", "NUL3", "NUL4",
+                                       // fields of 60..99 are accepted as long as the total stays within 24 h (and the zone reports the spelling it was asked for)
+                                       "Fixed/UTC+00:60:00", "Fixed/UTC+05:90:00", "Fixed/UTC-00:00:99", "Fixed/UTC+23:60:01", "Fixed/UTC+23:59:60", "Fat", "file:Fat"};
   return v;
 }
 
@@ -89,6 +91,9 @@ void standard_tree(C19Case* c) {
     add(d + "/file:X", "reg", "marker");
     add(d + "/Fixed", "dir", "");
     add(d + "/Fixed/UTC+25:00:00", "reg", "marker");
+    add(d + "/Fixed/UTC+00:60:00", "reg", "marker");   // files that a loader which forgets the built-in rule would find
+    add(d + "/Fixed/UTC+05:90:00", "reg", "marker");
+    add(d + "/Fixed/UTC+23:60:01", "reg", "marker");    // 86401 s: not a built-in name, so this one IS the zone
     add(d + "/fixed", "dir", "");
     add(d + "/fixed/utc+01:00:00", "reg", "marker");
     add(d + "/ADir", "dir", "");
@@ -112,6 +117,7 @@ void standard_tree(C19Case* c) {
     add(d + "/\xc3\x9cn\xc3\xaf", "dir", "");
     add(d + "/\xc3\x9cn\xc3\xaf/X", "reg", "marker");
     add(d + "/EST5EDT", "reg", "marker");
+    add(d + "/Fat", "reg", "markerfat:250");    // "zic -b fat" layout: a populated 32-bit block of 1262 bytes precedes the data that is decoded
     add(d + "/MarkF", "reg", "markerf");        // marker zone with a non-empty footer
     add(d + "/TruncNL", "reg", "truncf:1");     // ... whose closing newline is missing
     add(d + "/TruncFooter", "reg", "truncf:4"); // ... cut in the middle of the footer
@@ -134,6 +140,14 @@ std::string content_bytes(const FsSpec& f) {
     std::string m = write_tzif(d);
     if (c != "markerf") { size_t n = static_cast<size_t>(atoi(c.c_str() + 7)); m.resize(m.size() > n ? m.size() - n : 0); }
     return m;
+  }
+  if (c.compare(0, 10, "markerfat:") == 0) {
+    // The same one-type zone with K stored (no-op) transitions and a populated 32-bit block of 5K+12 bytes.
+    TzData d = marker_zone(abbr, f.marker * 60, '2');
+    int k = atoi(c.c_str() + 10);
+    for (int i = 0; i < k; ++i) { d.times.push_back(-2000000000LL + 1000000LL * i); d.idx.push_back(0); }
+    d.fat_v1 = true;
+    return write_tzif(d);
   }
   if (c.compare(0, 6, "marker") == 0) {
     char ver = '2';
@@ -216,6 +230,10 @@ C19Case gen_c19(const std::string& part, const std::string& tier, uint64_t seed,
     else o.op = "default";
     c.ops.push_back(o);
   }
+  // File content varies too: some of the healthy files use the fat layout, with 32-bit blocks around 1 KiB, 2 KiB and beyond.
+  if (r.chance(0.35)) {
+    for (FsSpec& f : c.fs) if (f.content == "marker" && r.chance(0.3)) f.content = "markerfat:" + std::to_string(r.pick(std::vector<int>{10, 100, 202, 203, 204, 205, 250, 407, 408, 409, 410, 1000, 2500}));
+  }
   static const std::vector<int> chunks = {1, 2, 3, 7, 64, 512, 4096, 65536};
   c.chunk = r.pick(chunks);
   if (part == "faulted") {
@@ -224,7 +242,7 @@ C19Case gen_c19(const std::string& part, const std::string& tier, uint64_t seed,
       C19Fault f;
       uint64_t p = r.below(100);
       if (p < 45) { f.k = "open_errno"; f.open_index = static_cast<int>(r.below(8)); f.err = r.pick(std::vector<int>{ENOENT, EACCES, EMFILE, ENFILE, ENOMEM, ELOOP, ENOTDIR, EINTR}); }
-      else if (p < 85) { f.k = "read_err"; f.open_index = r.chance(0.5) ? -2 : static_cast<int>(r.below(3)); f.at = static_cast<int64_t>(r.below(140)); f.err = r.chance(0.5) ? EIO : EINTR; f.transient = r.chance(0.5); }
+      else if (p < 85) { f.k = "read_err"; f.open_index = r.chance(0.5) ? -2 : static_cast<int>(r.below(3)); f.at = static_cast<int64_t>(r.chance(0.8) ? r.below(140) : r.below(4000)); f.err = r.chance(0.5) ? EIO : EINTR; f.transient = r.chance(0.5); }
       else { f.k = "seek_fail"; f.open_index = r.chance(0.5) ? -2 : static_cast<int>(r.below(3)); }
       c.faults.push_back(f);
     }
@@ -261,7 +279,7 @@ Expect model_load(const C19Case& c, const std::string& name, const std::map<cons
   int64_t off = 0;
   if (builtin_name(name, &off)) {
     e.ok = true; e.builtin = true; e.fixed_off = off;
-    e.name = off == 0 ? "UTC" : name;
+    e.name = off == 0 ? "UTC" : name;   // the requested spelling, also when a field is 60..99
     return e;
   }
   std::string n = name.compare(0, 5, "file:") == 0 ? name.substr(5) : name;
